@@ -1,5 +1,6 @@
 from __future__ import annotations
 import logging
+import threading
 
 from .ldm_constants import (
     DENM,
@@ -42,6 +43,8 @@ class InterfaceLDM3:
     def __init__(self, ldm_service: LDMService) -> None:
         self.logging = logging.getLogger("local_dynamic_map")
         self.ldm_service = ldm_service
+        # makes the registered-check and the removal of a deregistration one atomic step
+        self._deregistration_lock = threading.Lock()
 
     def check_its_aid(self, its_application_identifier: int) -> bool:
         """
@@ -137,9 +140,12 @@ class InterfaceLDM3:
         """
         self.logging.debug(
             "Registring LDM Data Provider with application id %d", data_provider.application_id)
-        if data_provider.application_id in self.ldm_service.get_data_provider_its_aid():
-            self.ldm_service.del_data_provider_its_aid(
-                data_provider.application_id)
+        with self._deregistration_lock:
+            registered = data_provider.application_id in self.ldm_service.get_data_provider_its_aid()
+            if registered:
+                self.ldm_service.del_data_provider_its_aid(
+                    data_provider.application_id)
+        if registered:
             return DeregisterDataProviderResp(data_provider.application_id, DeregisterDataProviderAck(0))
         return DeregisterDataProviderResp(data_provider.application_id, DeregisterDataProviderAck(1))
 
